@@ -327,10 +327,27 @@ pub fn build(
 
     // Handle functions
     let mut associated_functions = vec![];
+    // Names are compared as the Rust identifiers they stand for (`r#get` is `get`).
     let mut associated_functions_used_names: HashSet<String> = vftable
         .as_ref()
-        .map(|v| v.functions.iter().map(|f| f.name.clone()).collect())
+        .map(|v| {
+            v.functions
+                .iter()
+                .map(|f| util::plain_ident(&f.name).to_string())
+                .collect()
+        })
         .unwrap_or_default();
+    // The generated accessors are functions of the type as well.
+    for (accessor, generated) in [("vftable", vftable.is_some()), ("get", singleton.is_some())] {
+        if !generated {
+            continue;
+        }
+        if !associated_functions_used_names.insert(accessor.to_string()) {
+            anyhow::bail!(
+                "virtual function `{accessor}` of type `{resolvee_path}` has the name of the generated `{accessor}()` accessor"
+            );
+        }
+    }
     for (i, base_region) in regions.iter().filter(|r| r.is_base).enumerate() {
         // Inject all base associated functions into the type
         let Some((base_name, base_type)) = get_region_name_and_type_definition(
@@ -346,7 +363,7 @@ pub fn build(
             for function in functions.iter().filter(|f| f.is_public()) {
                 let mut function = function.clone();
                 let original_name = function.name.clone();
-                if associated_functions_used_names.contains(&original_name) {
+                if associated_functions_used_names.contains(util::plain_ident(&original_name)) {
                     // the name is embedded in a longer identifier: drop a raw-identifier prefix
                     function.name = format!(
                         "{}_{}",
@@ -355,7 +372,8 @@ pub fn build(
                     );
                 }
                 function.body = FunctionBody::field(base_name.clone(), original_name);
-                associated_functions_used_names.insert(function.name.clone());
+                associated_functions_used_names
+                    .insert(util::plain_ident(&function.name).to_string());
                 associated_functions.push(function);
             }
         };
@@ -372,7 +390,7 @@ pub fn build(
     }
     if let Some(type_impl) = module.impls.get(resolvee_path) {
         for function in &type_impl.functions {
-            if associated_functions_used_names.contains(&function.name.0) {
+            if associated_functions_used_names.contains(util::plain_ident(&function.name.0)) {
                 anyhow::bail!(
                     "function `{}` is already defined in type `{}` (or a base type)",
                     function.name,
@@ -388,7 +406,7 @@ pub fn build(
                             function.name
                         )
                     })?;
-            associated_functions_used_names.insert(function.name.clone());
+            associated_functions_used_names.insert(util::plain_ident(&function.name).to_string());
             associated_functions.push(function);
         }
     }
